@@ -388,5 +388,215 @@ impl<Db: Database> InternalStorage<Db> {
 //@end
 }
 
+// =====================================================================================
+// Storage::run_garbage_collection (database.rs): which roots the collector is given
+// =====================================================================================
+/// lru::LruCache (external crate) - assumed contract: `order` lists the keys from least to
+/// most recently used; `put` makes the key the most recent one and evicts the least recent
+/// when the capacity is exceeded; `contains` does not touch the order
+#[verifier::external_body]
+#[verifier::reject_recursive_types(K)]
+#[verifier::reject_recursive_types(V)]
+pub struct LruCache<K, V> { k: core::marker::PhantomData<(K, V)> }
+impl<K, V> LruCache<K, V> {
+    pub uninterp spec fn order(&self) -> Seq<K>;
+    pub uninterp spec fn cap(&self) -> nat;
+    pub open spec fn wf(&self) -> bool {
+        self.order().no_duplicates() && self.order().len() <= self.cap() && self.cap() >= 1
+    }
+    #[verifier::external_body]
+    pub fn put(&mut self, k: K, v: V) -> (r: Option<V>)
+        requires old(self).wf(),
+        ensures final(self).cap() == old(self).cap(), final(self).order() == lru_put(old(self).order(), k, old(self).cap()), final(self).wf(),
+    { unimplemented!() }
+    #[verifier::external_body]
+    pub fn contains(&self, k: &K) -> (r: bool) ensures r == self.order().contains(*k) { unimplemented!() }
+    #[verifier::external_body]
+    pub fn len(&self) -> (r: usize) ensures r == self.order().len() { unimplemented!() }
+}
+/// s without k (s has no duplicates: at most one element goes)
+pub open spec fn without<K>(s: Seq<K>, k: K) -> Seq<K>
+    decreases s.len()
+{
+    if s.len() == 0 { s } else {
+        let r = without(s.drop_last(), k);
+        if s.last() == k { r } else { r.push(s.last()) }
+    }
+}
+pub open spec fn lru_put<K>(s: Seq<K>, k: K, cap: nat) -> Seq<K> {
+    let t = without(s, k).push(k);
+    if t.len() > cap { t.subrange(t.len() - cap, t.len() as int) } else { t }
+}
+/// the first n calls recorded since the last collection, applied in order
+pub open spec fn lru_puts<K>(s: Seq<K>, ks: Seq<K>, n: int, cap: nat) -> Seq<K>
+    decreases n
+{
+    if n <= 0 { s } else { lru_put(lru_puts(s, ks, n - 1, cap), ks[n - 1], cap) }
+}
+pub proof fn lemma_without<K>(s: Seq<K>, k: K)
+    ensures
+        forall|x: K| #[trigger] without(s, k).contains(x) <==> (s.contains(x) && x != k),
+        without(s, k).len() <= s.len(),
+    decreases s.len()
+{
+    if s.len() > 0 {
+        let s0 = s.drop_last();
+        lemma_without(s0, k);
+        let r = without(s0, k);
+        assert forall|x: K| #[trigger] without(s, k).contains(x) <==> (s.contains(x) && x != k) by {
+            if without(s, k).contains(x) {
+                let j = choose|j: int| 0 <= j < without(s, k).len() && without(s, k)[j] == x;
+                if s.last() != k && j == r.len() { assert(s[s.len() - 1] == x); }
+                else { assert(r[j] == x); assert(r.contains(x)); let i = choose|i: int| 0 <= i < s0.len() && s0[i] == x; assert(s[i] == x); }
+            }
+            if s.contains(x) && x != k {
+                let i = choose|i: int| 0 <= i < s.len() && s[i] == x;
+                if i < s0.len() {
+                    assert(s0[i] == x); assert(s0.contains(x)); assert(r.contains(x));
+                    let j = choose|j: int| 0 <= j < r.len() && r[j] == x;
+                    assert(without(s, k)[j] == x);
+                } else {
+                    assert(without(s, k)[r.len() as int] == x);
+                }
+            }
+        }
+    }
+}
+/// what `put` can and cannot do to the set of keys: the new key is in (as the most recent
+/// one), and nothing appears that was not there
+pub proof fn lemma_lru_put<K>(s: Seq<K>, k: K, cap: nat)
+    requires cap >= 1
+    ensures
+        lru_put(s, k, cap).len() >= 1 && lru_put(s, k, cap).last() == k,
+        forall|x: K| #[trigger] lru_put(s, k, cap).contains(x) ==> s.contains(x) || x == k,
+{
+    lemma_without(s, k);
+    let t = without(s, k).push(k);
+    let r = lru_put(s, k, cap);
+    assert forall|x: K| #[trigger] r.contains(x) implies s.contains(x) || x == k by {
+        let j = choose|j: int| 0 <= j < r.len() && r[j] == x;
+        let jt = if t.len() > cap { j + t.len() - cap } else { j };
+        assert(t[jt] == x);
+        if jt < t.len() - 1 { assert(without(s, k)[jt] == x); assert(without(s, k).contains(x)); }
+    }
+}
+pub proof fn lemma_lru_puts<K>(s: Seq<K>, ks: Seq<K>, n: int, cap: nat)
+    requires cap >= 1, 0 <= n <= ks.len()
+    ensures
+        forall|x: K| #[trigger] lru_puts(s, ks, n, cap).contains(x) ==> s.contains(x) || ks.contains(x),
+        n >= 1 ==> lru_puts(s, ks, n, cap).len() >= 1 && lru_puts(s, ks, n, cap).last() == ks[n - 1],
+    decreases n
+{
+    if n > 0 {
+        lemma_lru_puts(s, ks, n - 1, cap);
+        lemma_lru_put(lru_puts(s, ks, n - 1, cap), ks[n - 1], cap);
+        assert(ks.contains(ks[n - 1]));
+    }
+}
+/// `self.top_level_call_lru_cache.iter().map(|(k, _v)| *k).chain(self.retained_calls.iter()
+/// .map(|ref_multi| *ref_multi.key()))` collected: exactly the keys of both (assumed: the
+/// iterator adapters are outside the verifier)
+#[verifier::external_body]
+pub fn chain_keys(lru: &LruCache<DerivedNodeId, ()>, retained: &DashMap<DerivedNodeId, usize>) -> (r: Vec<DerivedNodeId>)
+    ensures forall|x: DerivedNodeId| #[trigger] r@.contains(x) <==> (lru.order().contains(x) || retained@.contains_key(x))
+{ unimplemented!() }
+#[verifier::external_body]
+pub struct DependencyStack { p: core::marker::PhantomData<u8> }
+/// std::mem::take on the boxcar vector of recorded calls, and its by-value iteration
+#[verifier::external_body]
+pub fn take_boxcar<T>(v: &mut BoxcarVec<T>) -> (r: BoxcarVec<T>) ensures r@ == old(v)@, final(v)@.len() == 0 { unimplemented!() }
+impl<T> BoxcarVec<T> {
+    #[verifier::external_body]
+    pub fn into_vec(self) -> (r: Vec<T>) ensures r@ == self@ { unimplemented!() }
+}
+//@item rel=crates/pico/src/database.rs kind=struct name=Storage prefix="#[verifier::reject_recursive_types(Db)] pub" sub="<Db: Database>=><Db>"
+
+impl<Db: Database> Storage<Db> {
+    /// `assert!(self.dependency_stack.is_empty(), ..)`: collections are not run from inside
+    /// a memoized function (API misuse panics by design; not part of C03)
+    #[verifier::external_body]
+    pub fn assert_empty_dependency_stack(&self) { unimplemented!() }
+
+    /// every id the storage remembers as a root is a live derived node
+    pub open spec fn roots_live(&self) -> bool {
+        &&& forall|i: int| 0 <= i < self.top_level_call_lru_cache.order().len() ==> self.internal.has(#[trigger] self.top_level_call_lru_cache.order()[i])
+        &&& forall|i: int| 0 <= i < self.top_level_calls@.len() ==> self.internal.has(#[trigger] self.top_level_calls@[i])
+        &&& forall|id: DerivedNodeId| #[trigger] self.retained_calls@.contains_key(id) ==> self.internal.has(id)
+    }
+
+//@fn rel=crates/pico/src/database.rs name=run_garbage_collection within="impl<Db: Database> Storage<Db>" vis=pub serves=C03 rename=storage_run_garbage_collection
+//@sub "std::mem::take\(&mut self\.top_level_calls\)" => "take_boxcar(&mut self.top_level_calls)" n=1
+//@sub "for derived_node_id in top_level_function_calls \{" => "for derived_node_id in itc: top_level_function_calls.into_vec() {" n=1
+//@sub "self\s*\.top_level_call_lru_cache\s*\.iter\(\)\s*\.map\(\|\(k, _v\)\| \*k\)\s*\.chain\(self\.retained_calls\.iter\(\)\.map\(\|ref_multi\| \*ref_multi\.key\(\)\)\)" => "chain_keys(&self.top_level_call_lru_cache, &self.retained_calls)" n=1
+//@sub "self\.internal\s*\.run_garbage_collection\(retained_derived_node_ids\)" => "self.internal.run_garbage_collection(retained_derived_node_ids)" n=1
+//@contract
+        requires
+            old(self).internal.wf(), old(self).top_level_call_lru_cache.wf(), old(self).roots_live(),
+        ensures
+            // the cache of recent top-level queries is brought up to date with EVERY call
+            // recorded since the last collection, in call order (a re-called query becomes
+            // the most recent one again), and the record is cleared
+            final(self).top_level_call_lru_cache.order() == lru_puts(old(self).top_level_call_lru_cache.order(), old(self).top_level_calls@,
+                old(self).top_level_calls@.len() as int, old(self).top_level_call_lru_cache.cap()), //@O C03.O-3_recent_top_level_queries_updated_in_call_order
+            final(self).top_level_calls@.len() == 0 && final(self).top_level_call_lru_cache.cap() == old(self).top_level_call_lru_cache.cap()
+                && final(self).top_level_call_lru_cache.wf(),
+            final(self).retained_calls@ == old(self).retained_calls@,
+            // every query in that cache and every retained query survives the collection ...
+            forall|i: int| 0 <= i < final(self).top_level_call_lru_cache.order().len() ==>
+                final(self).internal.has(#[trigger] final(self).top_level_call_lru_cache.order()[i]), //@O C03.O-3_recent_top_level_queries_survive
+            forall|id: DerivedNodeId| #[trigger] final(self).retained_calls@.contains_key(id) ==> final(self).internal.has(id), //@O C03.O-3_retained_queries_survive
+            // ... unchanged, together with everything it depends on (contract of the collector)
+            forall|id: DerivedNodeId| #[trigger] final(self).internal.has(id) ==> old(self).internal.has(id) && final(self).internal.kept(&old(self).internal, id), //@O C03.O-3_survivors_unchanged
+            forall|id: DerivedNodeId, d: DerivedNodeId| final(self).internal.has(id) && #[trigger] is_dep(old(self).internal.deps(id), d) ==> final(self).internal.has(d), //@O C03.O-3_survivors_closed_under_dependencies
+            // the state stays usable for the next collection
+            final(self).roots_live(),
+//@before "for derived_node_id in"
+        let ghost calls = top_level_function_calls@;
+        let ghost lru0 = self.top_level_call_lru_cache.order();
+        let ghost cap = self.top_level_call_lru_cache.cap();
+//@loop 1
+            invariant
+                itc.seq() == calls,
+                self.top_level_call_lru_cache.wf(), self.top_level_call_lru_cache.cap() == cap,
+                self.top_level_call_lru_cache.order() == lru_puts(lru0, calls, itc.index@ as int, cap),
+                self.internal == old(self).internal, self.retained_calls == old(self).retained_calls,
+                self.top_level_calls@.len() == 0,
+//@after "for derived_node_id in"
+        proof {
+            lemma_lru_puts(lru0, calls, calls.len() as int, cap);
+            let ord = self.top_level_call_lru_cache.order();
+            assert forall|i: int| 0 <= i < ord.len() implies old(self).internal.has(#[trigger] ord[i]) by {
+                assert(ord.contains(ord[i]));
+                if lru0.contains(ord[i]) { let j = choose|j: int| 0 <= j < lru0.len() && lru0[j] == ord[i]; assert(old(self).internal.has(lru0[j])); }
+                else { let j = choose|j: int| 0 <= j < calls.len() && calls[j] == ord[i]; assert(old(self).internal.has(calls[j])); }
+            }
+        }
+//@after "let retained_derived_node_ids ="
+        proof {
+            let ord = self.top_level_call_lru_cache.order();
+            assert forall|i: int| 0 <= i < retained_derived_node_ids@.len() implies old(self).internal.has(#[trigger] retained_derived_node_ids@[i]) by {
+                let x = retained_derived_node_ids@[i];
+                assert(retained_derived_node_ids@.contains(x));
+                if ord.contains(x) { let j = choose|j: int| 0 <= j < ord.len() && ord[j] == x; assert(old(self).internal.has(ord[j])); }
+            }
+        }
+        let ghost roots = retained_derived_node_ids@;
+//@atend
+        proof {
+            let ord = self.top_level_call_lru_cache.order();
+            assert forall|i: int| 0 <= i < ord.len() implies self.internal.has(#[trigger] ord[i]) by {
+                assert(ord.contains(ord[i])); assert(roots.contains(ord[i]));
+                let j = choose|j: int| 0 <= j < roots.len() && roots[j] == ord[i];
+                assert(self.internal.has(roots[j]));
+            }
+            assert forall|id: DerivedNodeId| #[trigger] self.retained_calls@.contains_key(id) implies self.internal.has(id) by {
+                assert(roots.contains(id));
+                let j = choose|j: int| 0 <= j < roots.len() && roots[j] == id;
+                assert(self.internal.has(roots[j]));
+            }
+        }
+//@end
+}
+
 } // verus!
 fn main() {}
